@@ -596,14 +596,18 @@ func (g *G) Settle() {
 
 // ---- sync shims (state lives here; verif/vsync aliases these types) ----
 
-type Mutex struct{ locked bool }
+// Mutex: under the scheduler a flag whose Lock is a (possibly blocking) scheduling point;
+// outside a scheduler run (instrumented package used by an ordinary, possibly parallel, grid
+// check) a real mutex.
+type Mutex struct {
+	locked bool
+	real   sync.Mutex
+}
 
 func (m *Mutex) Lock() {
 	s := cur
 	if s == nil {
-		if m.locked {
-			panic("vsync.Mutex contended outside the scheduler")
-		}
+		m.real.Lock()
 		m.locked = true
 		return
 	}
@@ -615,15 +619,26 @@ func (m *Mutex) Lock() {
 	s.yield(g)
 }
 func (m *Mutex) Unlock() {
-	if s := cur; s != nil && s.abort {
+	s := cur
+	if s != nil && s.abort {
 		return
 	}
 	if !m.locked {
 		panic("sync: unlock of unlocked mutex")
 	}
 	m.locked = false
+	if s == nil {
+		m.real.Unlock()
+	}
 }
 func (m *Mutex) TryLock() bool {
+	if cur == nil {
+		if !m.real.TryLock() {
+			return false
+		}
+		m.locked = true
+		return true
+	}
 	if m.locked {
 		return false
 	}
